@@ -845,7 +845,7 @@ func queryIntParamsRangeChecked(p *Prog, r *Reporter) {
 				rel, c, ok := boundOnEdge(atom, holds, isPar)
 				return ok && impliesAtMost(rel, c, 1<<32-1)
 			}
-			mf := &MustFlow{Fn: fn, EdgeGen: edge}
+			mf := &MustFlow{Fn: fn, EdgeGen: edge, InstrGen: func(i ssa.Instruction) bool { return boundingCall(i, par, 0) }}
 			mf.Run()
 			factAtEnd := func(pred, succ *ssa.BasicBlock) bool {
 				if mf.Before(pred.Instrs[len(pred.Instrs)-1]) {
@@ -918,7 +918,32 @@ func queryIntParamsRangeChecked(p *Prog, r *Reporter) {
 
 // intParamBoundFlow: facts "par <= MaxUint32" in fn.
 func intParamBoundFlow(fn *ssa.Function, par *ssa.Parameter) *MustFlow {
-	mf := &MustFlow{Fn: fn, EdgeGen: func(b *ssa.BasicBlock, k int) bool {
+	return intParamBoundFlowD(fn, par, 0)
+}
+
+// boundingCall: the instruction calls a function that returns normally only if the argument it receives for par is at
+// most MaxUint32 (a `check…` helper that panics otherwise).
+func boundingCall(i ssa.Instruction, par *ssa.Parameter, d int) bool {
+	site, ok := i.(ssa.CallInstruction)
+	if !ok || d > 1 {
+		return false
+	}
+	g := site.Common().StaticCallee()
+	if g == nil || g.Blocks == nil || theProg == nil || !theProg.isArche(g) {
+		return false
+	}
+	for j, a := range site.Common().Args {
+		if stripConvs(a) == ssa.Value(par) && j < len(g.Params) {
+			if intParamBoundFlowD(g, g.Params[j], d+1).AtAllReturns() {
+				return true
+			}
+		}
+	}
+	return false
+}
+
+func intParamBoundFlowD(fn *ssa.Function, par *ssa.Parameter, d int) *MustFlow {
+	mf := &MustFlow{Fn: fn, InstrGen: func(i ssa.Instruction) bool { return boundingCall(i, par, d) }, EdgeGen: func(b *ssa.BasicBlock, k int) bool {
 		atom, holds, ok := edgeCond(b, k)
 		if !ok {
 			return false
